@@ -1000,6 +1000,9 @@ static void part_cap(const Args& a) {
     for (int cap = 64; cap <= (a.thorough ? 1280 : 640); cap += 8) for (const Opt& o : all_opts(0)) {
         if (o.pbf() && o.pcomp != 1) continue;          // blob compression does not reach the decoder's builders
         Opt x = o; x.cap = cap; g.opts.push_back(x);
+        // PBF with an outer gzip/bzip2 compression reaches the parser through the input queue in pieces (61 bytes in this build,
+        // hook H5): blob frames then start at every offset relative to a piece boundary (seeds C01e, C09e, C02d)
+        if (o.pbf() && o.dense && cap % 64 == 0) { x.zip = 1 + (cap / 64) % 2; g.opts.push_back(x); }
     }
     run_groups(a, {g});
 #endif
